@@ -69,6 +69,12 @@ func init() {
 // coming from a paired REP socket.
 func (s *socket) SendMsg(m *protocol.Message) error {
 	s.Lock()
+	if s.closed {
+		// (with best effort set, the select below would otherwise find the
+		// "drop it" case ready as well and report success half the time)
+		s.Unlock()
+		return protocol.ErrClosed
+	}
 	bestEffort := s.bestEffort
 	timeQ := nilQ
 	if bestEffort {
